@@ -10,7 +10,7 @@ import (
 
 const stubRule = "rapid: size_limit at a drawn position among logging/headers, limits 1..64 (plus 100..65536 and omitted=default) written as YAML int, YAML float or int64 and loaded through yaml.v3; " +
 	"1-6 (thorough 1-12) exchanges per lab (one kept-alive client connection) against a stub terminal handler: request (a quarter of them carrying an Upgrade: websocket / h2c offer, with and without Connection: Upgrade, that the terminal does not take up) GET/HEAD/DELETE without body or POST/PUT/PATCH with a body of 0, L-1, L, L+1, 3L or 100 KiB (1 MiB in thorough) in Content-Length or chunked framing (<=4 writes/chunks); " +
-	"handler program = header set, optional declared Content-Length, implicit or explicit WriteHeader (15 statuses incl. 204/304/3xx/4xx/5xx), body of 0, M-1, M, M+1, 3M or 100 KiB split into <=4 Writes, Flush drawn before/between/after the writes, stop or continue after a failed Write; " +
+	"handler program = header set, optional declared Content-Length, implicit or explicit WriteHeader (15 statuses incl. 204/304/3xx/4xx/5xx), body of 0, M-1, M, M+1, 3M or 100 KiB split into <=4 pieces, each piece handed to the ResponseWriter by w.Write (half of the handlers use nothing else), io.WriteString, io.Copy or fmt.Fprint (one idiom throughout, or mixed piece by piece), Flush drawn before/between/after the pieces, stop or continue after a failed call; " +
 	"oracle R1-R3, S1-S2 and differential U against the same chain without size_limit; non-trivial = a body length within +-1 of its limit, a bodiless status, HEAD, or >= 2 writes"
 
 func TestC14StubRapid(t *testing.T) {
@@ -32,6 +32,11 @@ func TestC14StubRapid(t *testing.T) {
 	sub.Floor("HEAD", 0.03)
 	sub.Floor("writes>=2", 0.15)
 	sub.Floor("flush-before-first-write", 0.05)
+	sub.Floor("emit-other-than-Write", 0.18)
+	sub.Floor("emit-string", 0.07)
+	sub.Floor("emit-copy", 0.06)
+	sub.Floor("emit-mixed", 0.06)
+	sub.Floor("plugin-on-server-writer", 0.25)
 	sub.Floor("req-carries-upgrade", 0.15)
 	sub.Floor("plugin-wrapped-by-others", 0.15)
 	sub.Floor("plugin-wraps-others", 0.15)
